@@ -137,6 +137,7 @@ def wid3_response_layouts(ctx):
         inits = [m for (m, node) in builder_calls(block) if re.match(r'^init_(double_)?delta_encoded_i\d+$', m)]
         if not inits or cond is None:
             continue
+        cond = ctx.ast.expand_predicates(cond, 'locustdb-serialization/src/api.rs')
         seen += 1
         m = re.match(r'^init_(double_)?delta_encoded_(i\d+)$', inits[0])
         double, ty = bool(m.group(1)), m.group(2)
